@@ -59,6 +59,10 @@ def gen_scenario(W, o):
         conns.append({"reqs": reqs, "cuts": cuts, "seg_delay": W.choice([0.0, 0.0005, 0.02]),
                       "reader": W.weighted(o.get("reader_weights", [6, 2])),
                       "start": W.choice([0.0, 0.001])})
+        if o.get("p_late_body"):
+            # the body of the first expecting request behind another request is held back until bytes of the
+            # preceding response show up: it then arrives while the worker is in the epilogue of that request
+            conns[-1]["late_body"] = W.chance(o["p_late_body"])
         if o.get("p_halfclose"):
             # the client shuts down its sending side after its last request and keeps reading: with
             # channel_request_lookahead 0 the server meets the EOF only after everything was answered and
@@ -129,11 +133,13 @@ def build(tapes, sc, infinite_poll=False, horizon=60.0, stop_at_idle=True, extra
                     closes = True
             scripts[path] = script
             chunked = q["kind"] == 2 and version == "1.1"
-            stream += build_request(method, path, version, hdrs, rb, chunked=chunked,
-                                    chunk_sizes=[max(1, len(rb) // 2)] if rb else None)
+            raw = build_request(method, path, version, hdrs, rb, chunked=chunked,
+                                chunk_sizes=[max(1, len(rb) // 2)] if rb else None)
+            head_end = len(stream) + raw.index(b"\r\n\r\n") + 4
+            stream += raw
             exp.append({"path": path, "method": method, "body": body, "reqbody": rb or b"",
                         "close": closes, "expect": bool(q.get("expect")) and version == "1.1",
-                        "version": version, "head_end": None, "end": len(stream)})
+                        "version": version, "head_end": head_end, "end": len(stream)})
             if closes and not sc.get("send_after_close"):
                 break
         expected[cid] = exp
@@ -143,14 +149,28 @@ def build(tapes, sc, infinite_poll=False, horizon=60.0, stop_at_idle=True, extra
     for cid, c in enumerate(sc["conns"]):
         stream = streams[cid]
         cuts = [x for x in c["cuts"] if x < len(stream)]
+        hold_at = None
+        if c.get("late_body"):
+            exp = expected[cid]
+            for r in range(1, len(exp)):
+                if exp[r]["expect"] and exp[r]["reqbody"] and exp[r]["head_end"] < len(stream):
+                    hold_at = exp[r]["head_end"]
+                    marker = exp[r - 1]["body"][:8]
+                    hold_cond = ("contains", marker) if len(marker) == 8 else ("bytes", 1)
+                    cuts = sorted(set(cuts + [hold_at]))
+                    break
         segs = common.split_chunks(stream, cuts)
         steps = []
         if c["reader"] == 1:
             steps.append(("mode", "slow", max(7, sc["sndbuf_cap"] // 2) + cid, 0.0003))
+        pos = 0
         for i, s in enumerate(segs):
-            if i and c["seg_delay"]:
+            if hold_at is not None and pos == hold_at:
+                steps.append(("wait", hold_cond, 0.05))
+            elif i and c["seg_delay"]:
                 steps.append(("sleep", c["seg_delay"]))
             steps.append(("send", s))
+            pos += len(s)
         if c.get("halfclose"):
             steps.append(("fin",))
         sim.add_client(steps, cid=cid, start=c["start"])
@@ -223,6 +243,25 @@ def check_pipeline(ctx, res, clauses=("calls", "wire", "logs", "threads")):
                 res.v("wire", "wrong_body" + feat, "conn %d response %d: status %s body[%d] %r..., expected body[%d] %r..." % (
                     cid, i, r.status, len(r.body), r.body[:50], len(e["body"]), e["body"][:50]))
                 break
+        # interim responses are bytes of the stream too: at most one in front of the final response of a request
+        # that asked for it, none anywhere else ("no byte duplicated")
+        idx = 0
+        pend = 0
+        for r in rs:
+            if r.interim:
+                pend += 1
+                continue
+            allowed = 1 if (idx < len(exp) and exp[idx]["expect"]) else 0
+            if pend > allowed:
+                res.v("wire", "surplus_interim" + feat, "conn %d: %d interim response(s) in front of final response %d (request %s expect)" % (
+                    cid, pend, idx, "did" if allowed else "did not"))
+                break
+            pend = 0
+            idx += 1
+        else:
+            allowed = 1 if (idx < len(exp_all) and exp_all[idx]["expect"]) else 0
+            if pend > allowed:
+                res.v("wire", "surplus_interim" + feat, "conn %d: %d interim response(s) after the last final response (%d)" % (cid, pend, idx))
         if not probs and len(finals) != len(exp):
             res.v("wire", "response_count" + feat, "conn %d: %d final responses for %d requests (end=%s)" % (
                 cid, len(finals), len(exp), k.end_reason))
